@@ -1,7 +1,7 @@
 """Semantics-preserving normalisation of exported function bodies, applied once when facts are loaded, so that every rule sees
 one canonical form of constructs that maintainers routinely rewrite into each other:
 
-  E1  !(a == b) -> a != b ; !(a != b) -> a == b ; !!a -> a                     (integral / pointer / bool operands only)
+  E1  !(a == b) -> a != b ; !(a != b) -> a == b ; !(a < b) -> a >= b ... ; !!a -> a          (integral / pointer / bool operands only)
   E2  comparisons are oriented: the operand with the smaller text on the left (a > b  ==  b < a)
   E3  (a < b) ? a : b and friends -> min(a, b) / max(a, b); arguments of min / max sorted by text (for floating operands only
       the strict forms are rewritten; the canonical argument order differs from the source only for NaN / signed zeros, which no
@@ -12,6 +12,8 @@ one canonical form of constructs that maintainers routinely rewrite into each ot
   E8  (*p).f -> p->f (printed p.f), for pointers and for overloaded operator* / operator-> alike
   E9  x << 0, x >> 0, x + 0, x - 0, x | 0, x ^ 0, x * 1 -> x   (integers, when the type of the result is the type of x)
   E4  x += 1, x = x + 1, x++ (value unused) -> ++x ; likewise --x
+  E10 / S1  one polarity for two-armed choices: (!c | x != y | x <= y | x >= y) ? a : b -> (c | x == y | x > y | x < y) ? b : a, and
+      likewise for if / else (integer comparisons only)
   S1  if (!c) A else B -> if (c) B else A
   S2  if (c) { ...always exits } else B  ->  if (c) { ... } ; B            (else after return / throw)
   S3  if (a) { if (b) X }  ->  if (a && b) X                                (no else on either)
@@ -21,12 +23,14 @@ one canonical form of constructs that maintainers routinely rewrite into each ot
   S7  T i = a; while (c(i)) { body; ++i; } (no continue, i dead afterwards) -> for (T i = a; c(i); ++i) body
   S4  a void function body / a loop body that ends with `if (a && b) { X }` -> `if (!a) return / continue; if (!b) ...; X` (guard-clause form)
   S8  if (a > b) a = b; -> a = min(a, b); if (a < b) a = b; -> a = max(a, b)   (integers)
+  S10 if (c) x = a; else x = b; -> x = c ? a : b ;  S13 if (c) b = true; -> b |= c ; if (c) b = false; -> b &= !c  (bool b)
   S12 `if (ok) return; throw X;` at the end of a void function -> `if (!ok) throw X;`
   S5  `while (c) body` and `for (; c; ) body` are both exported as For nodes with empty init / increment
 
 Nothing here changes which values are computed, in which order side effects happen, or which exceptions are thrown."""
 FLIP = {"<": ">", ">": "<", "<=": ">=", ">=": "<=", "==": "==", "!=": "!="}
 NEG_EQ = {"==": "!=", "!=": "=="}
+NEG_ORD = {"<": ">=", ">=": "<", ">": "<=", "<=": ">"}
 
 
 def _txt(e):
@@ -121,6 +125,33 @@ def _zero_cmp(e):
 LIGHT = [False]   # light mode: only the loop canonicalisations (S5 / S6 / S7 / S7a / S9), for the byte-level abstract interpreters
 
 
+def _orient(e):
+    try:
+        if _txt(e["l"]) > _txt(e["r"]):
+            e["l"], e["r"] = e["r"], e["l"]
+            e["op"] = FLIP[e["op"]]
+    except Exception:
+        pass
+    return _zero_cmp(e) if e.get("k") == "Bin" and e.get("op") in FLIP else e
+
+
+def _negatable_choice(c):
+    """the condition of a two-armed choice is in the non-canonical polarity: !x, or an integer comparison with != / <= / >="""
+    if not isinstance(c, dict):
+        return False
+    if c.get("k") == "Un" and c.get("op") == "!":
+        return True
+    if c.get("k") == "Bin" and c.get("op") in ("!=", "<=", ">=", "==") and not _is_float(_strip(c["l"])) and not _is_float(_strip(c["r"])):
+        zero = _lit(c["l"]) == 0 or _lit(c["r"]) == 0
+        # comparisons with 0 keep the truthiness polarity `0 != x` (an integer used as a condition means exactly that)
+        if c["op"] == "!=":
+            return not zero
+        if c["op"] == "==":
+            return zero
+        return True
+    return False
+
+
 def norm_expr(e):
     """bottom-up rewrite of one expression node (dicts / lists)"""
     if LIGHT[0]:
@@ -152,6 +183,10 @@ def norm_expr(e):
             n = dict(inner)
             n["op"] = NEG_EQ[inner["op"]]
             return n
+        if isinstance(inner, dict) and inner.get("k") == "Bin" and inner.get("op") in NEG_ORD and not _is_float(_strip(inner["l"])) and not _is_float(_strip(inner["r"])):
+            n = dict(inner)
+            n["op"] = NEG_ORD[inner["op"]]
+            return norm_expr(n) if False else _orient(n)
     if k == "Bin" and e.get("op") in ("<<", ">>", "+", "-", "|", "^", "*") and not _is_float(e):
         # E9: x << 0, x >> 0, x + 0, 0 + x, x - 0, x | 0, 0 | x, x ^ 0, x * 1, 1 * x -> x  (integers)
         lv, rv = _lit(e["l"]), _lit(e["r"])
@@ -199,6 +234,13 @@ def norm_expr(e):
                         return {"k": "Call", "cname": pick, "callee": "std::" + pick, "args": args, "loc": e.get("loc"), "t": e.get("t"), "sz": e.get("sz"), "synth": True}
             except Exception:
                 pass
+    if k == "Cond":
+        # E10: one polarity for two-armed choices: !c ? a : b -> c ? b : a ; (x != y | x <= y | x >= y) ? a : b -> (x == y | x > y | x < y) ? b : a
+        c = _strip(e.get("c"))
+        if _negatable_choice(c):
+            e = dict(e)
+            e["c"] = norm_expr(_neg(e["c"])) if not (isinstance(c, dict) and c.get("k") == "Un") else c["e"]
+            e["a"], e["e"] = e["e"], e["a"]
     if k == "Call" and e.get("cname") in ("min", "max") and (e.get("callee") or "").startswith("std::") and len(e.get("args", [])) == 2:
         try:
             e["args"] = sorted(e["args"], key=_txt)
@@ -245,6 +287,10 @@ def _neg(c):
     if isinstance(c2, dict) and c2.get("k") == "Bin" and c2.get("op") in NEG_EQ and not _is_float(_strip(c2["l"])) and not _is_float(_strip(c2["r"])):
         n = dict(c2)
         n["op"] = NEG_EQ[c2["op"]]
+        return n
+    if isinstance(c2, dict) and c2.get("k") == "Bin" and c2.get("op") in NEG_ORD and not _is_float(_strip(c2["l"])) and not _is_float(_strip(c2["r"])):
+        n = dict(c2)
+        n["op"] = NEG_ORD[c2["op"]]     # integers: !(a < b) == a >= b (not so for floating operands: NaN)
         return n
     return {"k": "Un", "op": "!", "e": c, "loc": (c or {}).get("loc"), "t": "bool", "sz": 1}
 
@@ -536,11 +582,38 @@ def norm_stmt(s):
         if s.get("e") is not None and isinstance(c, dict) and c.get("k") == "Un" and c.get("op") == "!":
             s["c"] = c["e"]
             s["t"], s["e"] = s["e"], s["t"]
+        elif s.get("e") is not None and _negatable_choice(c):
+            s["c"] = norm_expr(_neg(s["c"]))
+            s["t"], s["e"] = s["e"], s["t"]
         # S2
         if s.get("e") is not None and _exits(s.get("t")):
             rest = _stmts(s["e"])
             s["e"] = None
             return [s] + rest
+        # S10: if (c) x = a; else x = b;  ->  x = c ? a : b      (x a plain variable / member)
+        if s.get("e") is not None:
+            tb, eb = _stmts(s.get("t")), _stmts(s.get("e"))
+            if len(tb) == 1 and len(eb) == 1 and all(isinstance(x, dict) and x.get("k") == "Expr" for x in (tb[0], eb[0])):
+                a1, a2 = _strip(tb[0].get("e")), _strip(eb[0].get("e"))
+                if isinstance(a1, dict) and isinstance(a2, dict) and a1.get("k") == "Assign" and a2.get("k") == "Assign" and a1.get("op") == "=" and a2.get("op") == "=" \
+                        and _pure_container(a1.get("l")) and _same(a1["l"], a2["l"]):
+                    cond = {"k": "Cond", "c": s["c"], "a": a1["r"], "e": a2["r"], "loc": s.get("loc"), "t": a1.get("t"), "sz": a1.get("sz"), "synth": True}
+                    na = dict(a1)
+                    na["r"] = norm_expr(cond)
+                    return [{"k": "Expr", "e": na, "loc": s.get("loc"), "synth": True}]
+        # S13: if (c) b = true;  ->  b |= c ;   if (c) b = false;  ->  b &= !c      (b a bool variable / member)
+        if s.get("e") is None:
+            tb = _stmts(s.get("t"))
+            if len(tb) == 1 and isinstance(tb[0], dict) and tb[0].get("k") == "Expr":
+                a1 = _strip(tb[0].get("e"))
+                if isinstance(a1, dict) and a1.get("k") == "Assign" and a1.get("op") == "=" and _pure_container(a1.get("l")) and (a1["l"].get("t") or "").replace("const ", "") == "bool":
+                    rv = _strip(a1.get("r"))
+                    if isinstance(rv, dict) and rv.get("k") == "Bool":
+                        cexp = s["c"] if rv.get("b") else norm_expr({"k": "Un", "op": "!", "e": s["c"], "loc": s.get("loc"), "t": "bool", "sz": 1})
+                        na = dict(a1)
+                        na["op"] = "|=" if rv.get("b") else "&="
+                        na["r"] = cexp
+                        return [{"k": "Expr", "e": na, "loc": s.get("loc"), "synth": True}]
         # S8: if (a > b) a = b;  ->  a = min(a, b);   if (a < b) a = b;  ->  a = max(a, b)      (integers)
         if s.get("e") is None:
             body = _stmts(s.get("t"))
